@@ -168,6 +168,23 @@ var subtleCases = []subtleCase{
 		p.decrypt = func(ct, aux []byte) ([]byte, error) { return a.Decrypt(ct) }
 		return nil
 	}},
+	{op: "aead/subtle.NewEncryptThenAuthenticate", recv: "aead/subtle.(*EncryptThenAuthenticate)", produce: "Encrypt", accept: "Decrypt", build: func(w *world, b *builder, p *prim) error {
+		// the legacy AES-CTR-HMAC composition over the subtle AES-CTR and HMAC primitives
+		ctr, err := aeadsubtle.NewAESCTR(b.bytesFor("aead/subtle.NewAESCTR", "AES key", w.material("k", w.keySize())), 16)
+		if err != nil {
+			return err
+		}
+		m, err := macsubtle.NewHMAC("SHA256", b.bytesFor("mac/subtle.NewHMAC", "HMAC key", w.material("hk", 32)), 16)
+		if err != nil {
+			return err
+		}
+		a, err := aeadsubtle.NewEncryptThenAuthenticate(ctr, m, 16)
+		if err != nil {
+			return err
+		}
+		aeadPrim(p, a)
+		return nil
+	}},
 	{op: "daead/subtle.NewAESSIV", recv: "daead/subtle.(*AESSIV)", produce: "EncryptDeterministically", accept: "DecryptDeterministically", build: func(w *world, b *builder, p *prim) error {
 		a, err := daeadsubtle.NewAESSIV(b.bytes("key", w.material("k", 64)))
 		if err != nil {
